@@ -215,6 +215,10 @@ func PlainParseDump(c *Case) string {
 		src = []byte(c.Src)
 	case "reader":
 		src = gosim.NewSimByteReader(nil, c.Src, c.Reader)
+	case "invalid-int":
+		src = 42
+	case "invalid-nil":
+		src = nil
 	default:
 		src = gosim.NewSimReader(nil, c.Src, c.Reader)
 	}
